@@ -3,9 +3,10 @@ import TantivyModel.Proofs.WriterRefine2
 import TantivyModel.Proofs.WriterMergeEndD
 /-
 The machine with the bookkeeping of `advance_deletes` (`Model/WriterBook.lean`) against the core
-machine: as long as the stamper never goes back (no `delete_all_documents`, no `rollback`) every
-recorded `delete_opstamp` is below the stamper, so the early return can only fire for a merge of
-committed segments at the last commit, where the core `advance` is the identity.
+machine: as long as the stamper never goes below `meta.opstamp` every recorded `delete_opstamp` is
+at most `meta.opstamp`, which the stamper has passed unless the delete queue is still empty; so the
+early return can only fire for a merge of committed segments at the last commit or on an empty
+queue, where the core `advance` is the identity.
 -/
 namespace TantivyModel.Writer
 open TantivyModel.WriterSpec
@@ -115,15 +116,35 @@ theorem catchUpBook_delOp_other (B : Book) (log : List (DelOp α)) (c : Nat) (sg
     · rfl
   · rfl
 
-/-- events under which the stamper does not go back, sub-steps excluded -/
+/-- the state-level hypothesis under which the stamper never goes below `meta.opstamp`:
+`delete_all_documents` only while `committed_opstamp` (stale after a commit, F1) is not below it -
+i.e. on a writer that has not committed since it was created; sub-steps excluded -/
+def bookOkS (s : WState α) : Event α → Prop
+  | .deleteAll => s.metas.opstamp ≤ s.committedOpstamp
+  | .stamp _ => False
+  | .publish _ => False
+  | _ => True
+
+def bookRun (s : WState α) : List (Event α) → Prop
+  | [] => True
+  | e :: es => bookOkS s e ∧ ∀ s' r, step s e = some (s', r) → bookRun s' es
+
+/-- sufficient: no `delete_all_documents` at all (rollbacks, reopen allowed) -/
 def bookOk : Event α → Bool
   | .deleteAll => false
-  | .rollback => false
   | .stamp _ => false
   | .publish _ => false
   | _ => true
 
-/-- the events that never call `advance_deletes` -/
+theorem bookRun_of_all (s : WState α) (es : List (Event α)) (h : es.all bookOk = true) : bookRun s es := by
+  induction es generalizing s with
+  | nil => trivial
+  | cons e es ih =>
+    simp only [List.all_cons, Bool.and_eq_true] at h
+    refine ⟨?_, fun s' _ _ => ih s' h.2⟩
+    cases e <;> first | trivial | simp [bookOk] at h
+
+/-- the events that never call `advance_deletes` and keep the stamper -/
 def plainD : Event α → Bool
   | .add _ => true
   | .del _ => true
@@ -137,25 +158,28 @@ def plainD : Event α → Bool
   | _ => false
 
 theorem step_frame (s s' : WState α) (e : Event α) (r : Nat) (h : step s e = some (s', r)) (hp : plainD e = true) :
-    s.stamper ≤ s'.stamper ∧ s'.merges = s.merges ∧ s'.metas = s.metas := by
+    s.stamper ≤ s'.stamper ∧ s'.merges = s.merges ∧ s'.metas = s.metas
+      ∧ (s.stamper < s'.stamper ∨ s'.log = s.log) := by
   cases e with
   | add d =>
     simp only [step, Option.some.injEq, Prod.mk.injEq] at h; obtain ⟨rfl, _⟩ := h
-    exact ⟨Nat.le_succ _, rfl, rfl⟩
+    exact ⟨Nat.le_succ _, rfl, rfl, Or.inl (Nat.lt_succ_self _)⟩
   | del q =>
     simp only [step, Option.some.injEq, Prod.mk.injEq] at h; obtain ⟨rfl, _⟩ := h
-    exact ⟨Nat.le_succ _, rfl, rfl⟩
+    exact ⟨Nat.le_succ _, rfl, rfl, Or.inl (Nat.lt_succ_self _)⟩
   | batch items =>
     simp only [step, batch_fold, List.nil_append, Option.some.injEq, Prod.mk.injEq] at h
     obtain ⟨rfl, _⟩ := h
-    refine ⟨?_, rfl, rfl⟩
-    show s.stamper ≤ s.stamper + items.length + 1
-    omega
+    refine ⟨?_, rfl, rfl, Or.inl ?_⟩
+    · show s.stamper ≤ s.stamper + items.length + 1
+      omega
+    · show s.stamper < s.stamper + items.length + 1
+      omega
   | prepare =>
     simp only [step] at h
     split at h
     · simp only [Option.some.injEq, Prod.mk.injEq] at h; obtain ⟨rfl, _⟩ := h
-      exact ⟨Nat.le_succ _, rfl, rfl⟩
+      exact ⟨Nat.le_succ _, rfl, rfl, Or.inl (Nat.lt_succ_self _)⟩
     · cases h
   | recv w =>
     simp only [step] at h
@@ -164,30 +188,30 @@ theorem step_frame (s s' : WState α) (e : Event α) (r : Nat) (h : step s e = s
       · split at h
         · cases h
         · simp only [Option.some.injEq, Prod.mk.injEq] at h; obtain ⟨rfl, _⟩ := h
-          exact ⟨Nat.le_refl _, rfl, rfl⟩
+          exact ⟨Nat.le_refl _, rfl, rfl, Or.inr rfl⟩
       · simp only [Option.some.injEq, Prod.mk.injEq] at h; obtain ⟨rfl, _⟩ := h
-        exact ⟨Nat.le_refl _, rfl, rfl⟩
+        exact ⟨Nat.le_refl _, rfl, rfl, Or.inr rfl⟩
     · cases h
   | cut w =>
     simp only [step] at h
     split at h
     · split at h
       · simp only [Option.some.injEq, Prod.mk.injEq] at h; obtain ⟨rfl, _⟩ := h
-        exact ⟨Nat.le_refl _, rfl, rfl⟩
+        exact ⟨Nat.le_refl _, rfl, rfl, Or.inr rfl⟩
       · cases h
     · cases h
   | register =>
     simp only [step] at h
     split at h
     · simp only [Option.some.injEq, Prod.mk.injEq] at h; obtain ⟨rfl, _⟩ := h
-      exact ⟨Nat.le_refl _, rfl, rfl⟩
+      exact ⟨Nat.le_refl _, rfl, rfl, Or.inr rfl⟩
     · cases h
   | tick =>
     simp only [step, Option.some.injEq, Prod.mk.injEq] at h; obtain ⟨rfl, _⟩ := h
-    exact ⟨Nat.le_succ _, rfl, rfl⟩
+    exact ⟨Nat.le_succ _, rfl, rfl, Or.inl (Nat.lt_succ_self _)⟩
   | flush =>
     simp only [step, Option.some.injEq, Prod.mk.injEq] at h; obtain ⟨rfl, _⟩ := h
-    exact ⟨Nat.le_refl _, rfl, rfl⟩
+    exact ⟨Nat.le_refl _, rfl, rfl, Or.inr rfl⟩
   | deleteAll => simp [plainD] at hp
   | rollback => simp [plainD] at hp
   | commit p => simp [plainD] at hp
@@ -196,14 +220,33 @@ theorem step_frame (s s' : WState α) (e : Event α) (r : Nat) (h : step s e = s
   | stamp op => simp [plainD] at hp
   | publish k => simp [plainD] at hp
 
-/-- what is known of the book in a run whose stamper never went back -/
+/-- what is known of the book in a run whose stamper never went below `meta.opstamp` -/
 structure BInv (s : WState α) (B : Book) : Prop where
-  lt : ∀ i t, B.delOp i = some t → t < s.stamper
+  le : ∀ i t, B.delOp i = some t → t ≤ s.metas.opstamp
+  mle' : ∀ i t, B.metaDelOp i = some t → t ≤ s.metas.opstamp
   res : ∀ m ∈ s.merges, ∀ M, m.result = some M → B.delOp M.id = none
-  mlt : s.metas.opstamp < s.stamper ∨ s.metas.opstamp = 0
+  mle : s.metas.opstamp ≤ s.stamper
+  strict : s.metas.opstamp < s.stamper ∨ s.log = []
 
 theorem binv_init (n : Nat) : BInv (WState.init n : WState α) Book.init :=
-  ⟨fun i t h => by simp [Book.init] at h, fun m hm => by simp [WState.init] at hm, Or.inr rfl⟩
+  ⟨fun i t h => by simp [Book.init] at h, fun i t h => by simp [Book.init] at h,
+   fun m hm => by simp [WState.init] at hm, Nat.le_refl _, Or.inr rfl⟩
+
+theorem advance_nil (t : Nat) (sg : Seg α) : advance ([] : List (DelOp α)) t sg = sg := by
+  unfold advance
+  simp [consume]
+
+/-- at the current stamper the early return is harmless -/
+theorem advB_at_stamper (s : WState α) (B : Book) (hb : BInv s B) (sg : Seg α) :
+    advB B s.log s.stamper sg = advance s.log s.stamper sg := by
+  by_cases hc : B.delOp sg.id = some s.stamper
+  · have h1 := hb.le _ _ hc
+    rcases hb.strict with h2 | h2
+    · omega
+    · apply advB_eq_of_fixed
+      rw [h2]
+      exact advance_nil _ _
+  · exact advB_eq_of_ne B s.log s.stamper sg hc
 
 theorem result_id_not_reg (s : WState α) (hm : MInv s) (m : Merge α) (hmem : m ∈ s.merges) (M : Seg α)
     (hM : m.result = some M) : ∀ sg ∈ s.uncommitted ++ s.committed, M.id ≠ sg.id := by
@@ -220,7 +263,7 @@ theorem plainD_stepD (s : WState α) (B : Book) (e : Event α) (hp : plainD e = 
 
 /-- one step of the machine with bookkeeping is the step of the core machine -/
 theorem stepD_step (s : WState α) (B : Book) (e : Event α) (sb' : WState α × Book) (r : Nat)
-    (hm : MInv s) (hb : BInv s B) (hk : bookOk e = true) (h : stepD (s, B) e = some (sb', r)) :
+    (hm : MInv s) (hb : BInv s B) (hok : okEvent2 s e) (hk : bookOkS s e) (h : stepD (s, B) e = some (sb', r)) :
     step s e = some (sb'.1, r) ∧ BInv sb'.1 sb'.2 := by
   by_cases hp : plainD e = true
   · rw [plainD_stepD s B e hp] at h
@@ -231,15 +274,23 @@ theorem stepD_step (s : WState α) (B : Book) (e : Event α) (sb' : WState α ×
       rw [hs] at h
       simp only [Option.map_some, Option.some.injEq, Prod.mk.injEq] at h
       obtain ⟨rfl, rfl⟩ := h
-      obtain ⟨f1, f2, f3⟩ := step_frame s s' e r' hs hp
-      refine ⟨rfl, ⟨fun i t hi => Nat.lt_of_lt_of_le (hb.lt i t hi) f1, ?_, ?_⟩⟩
+      obtain ⟨f1, f2, f3, f4⟩ := step_frame s s' e r' hs hp
+      refine ⟨rfl, ⟨?_, ?_, ?_, ?_, ?_⟩⟩
+      · show ∀ i t, B.delOp i = some t → t ≤ s'.metas.opstamp
+        rw [f3]; exact hb.le
+      · show ∀ i t, B.metaDelOp i = some t → t ≤ s'.metas.opstamp
+        rw [f3]; exact hb.mle'
       · show ∀ m ∈ s'.merges, _
         rw [f2]; exact hb.res
-      · show s'.metas.opstamp < s'.stamper ∨ s'.metas.opstamp = 0
+      · show s'.metas.opstamp ≤ s'.stamper
+        rw [f3]; exact Nat.le_trans hb.mle f1
+      · show s'.metas.opstamp < s'.stamper ∨ s'.log = []
         rw [f3]
-        rcases hb.mlt with h1 | h1
-        · exact Or.inl (Nat.lt_of_lt_of_le h1 f1)
-        · exact Or.inr h1
+        rcases f4 with h1 | h1
+        · exact Or.inl (Nat.lt_of_le_of_lt hb.mle h1)
+        · rcases hb.strict with h2 | h2
+          · exact Or.inl (Nat.lt_of_lt_of_le h2 f1)
+          · exact Or.inr (by rw [h1]; exact h2)
   · cases e with
     | add d => simp [plainD] at hp
     | del q => simp [plainD] at hp
@@ -250,10 +301,24 @@ theorem stepD_step (s : WState α) (B : Book) (e : Event α) (sb' : WState α ×
     | register => simp [plainD] at hp
     | tick => simp [plainD] at hp
     | flush => simp [plainD] at hp
-    | deleteAll => simp [bookOk] at hk
-    | rollback => simp [bookOk] at hk
-    | stamp op => simp [bookOk] at hk
-    | publish k => simp [bookOk] at hk
+    | stamp op => exact hk.elim
+    | publish k => exact hk.elim
+    | deleteAll =>
+      have hs : step s .deleteAll = some (deleteAllState s, s.committedOpstamp) := rfl
+      have hd : stepD (s, B) .deleteAll = (step s .deleteAll).map (fun p => ((p.1, B), p.2)) := rfl
+      rw [hd, hs] at h
+      simp only [Option.map_some, Option.some.injEq, Prod.mk.injEq] at h
+      obtain ⟨rfl, rfl⟩ := h
+      have hlog : s.log = [] := hok.1
+      exact ⟨hs, ⟨hb.le, hb.mle', hb.res, hk, Or.inr hlog⟩⟩
+    | rollback =>
+      have hs : step s .rollback = some (rollbackState s, s.metas.opstamp) := rfl
+      have hd : stepD (s, B) .rollback = (step s .rollback).map (fun p =>
+          ((p.1, { delOp := B.metaDelOp, dead := fun _ => 0, metaDelOp := B.metaDelOp }), p.2)) := rfl
+      rw [hd, hs] at h
+      simp only [Option.map_some, Option.some.injEq, Prod.mk.injEq] at h
+      obtain ⟨rfl, rfl⟩ := h
+      exact ⟨hs, ⟨hb.mle', hb.mle', (fun m hmem => by cases hmem), Nat.le_refl _, Or.inr rfl⟩⟩
     | commit p =>
       simp only [stepD] at h
       split at h
@@ -261,69 +326,56 @@ theorem stepD_step (s : WState α) (B : Book) (e : Event α) (sb' : WState α ×
         simp only [Option.some.injEq, Prod.mk.injEq] at h
         obtain ⟨rfl, rfl⟩ := h
         have hmap : (s.uncommitted ++ s.committed).map (advB B s.log s.stamper)
-            = (s.uncommitted ++ s.committed).map (advance s.log s.stamper) := by
-          apply List.map_congr_left
-          intro sg _
-          apply advB_eq_of_ne
-          intro hc
-          exact Nat.lt_irrefl _ (hb.lt _ _ hc)
+            = (s.uncommitted ++ s.committed).map (advance s.log s.stamper) :=
+          List.map_congr_left (fun sg _ => advB_at_stamper s B hb sg)
+        have hle : ∀ i t, (List.foldl (fun B sg => bookAfter B s.log s.stamper sg) B (s.uncommitted ++ s.committed)).delOp i = some t
+            → t ≤ s.stamper := by
+          intro i t hi
+          rcases foldl_bookAfter_delOp s.log s.stamper _ B i t hi with h1 | h1
+          · omega
+          · exact Nat.le_trans (hb.le i t h1) hb.mle
         refine ⟨?_, ?_⟩
         · simp only [step, if_pos hq, hmap]
-        · refine ⟨?_, ?_, ?_⟩
-          · intro i t hi
-            show t < s.stamper + 1
-            rcases foldl_bookAfter_delOp s.log s.stamper _ B i t hi with h1 | h1
-            · omega
-            · have := hb.lt i t h1; omega
-          · intro m hmem M hM
-            have hmem' : m ∈ s.merges := hmem
-            show (List.foldl (fun B sg => bookAfter B s.log s.stamper sg) B (s.uncommitted ++ s.committed)).delOp M.id = none
-            rw [foldl_bookAfter_delOp_other s.log s.stamper _ B M.id (result_id_not_reg s hm m hmem' M hM)]
-            exact hb.res m hmem' M hM
-          · exact Or.inl (Nat.lt_succ_self _)
+        · refine ⟨hle, hle, ?_, Nat.le_succ _, Or.inl (Nat.lt_succ_self _)⟩
+          intro m hmem M hM
+          have hmem' : m ∈ s.merges := hmem
+          show (List.foldl (fun B sg => bookAfter B s.log s.stamper sg) B (s.uncommitted ++ s.committed)).delOp M.id = none
+          rw [foldl_bookAfter_delOp_other s.log s.stamper _ B M.id (result_id_not_reg s hm m hmem' M hM)]
+          exact hb.res m hmem' M hM
       · cases h
     | mergeStart ids policy =>
       simp only [stepD] at h
       split at h
       · cases h
       · rename_i hg
+        have hle : ∀ i t, (if i = s.nextId then none else B.delOp i) = some t → t ≤ s.metas.opstamp := by
+          intro i t hi
+          split at hi
+          · cases hi
+          · exact hb.le i t hi
         split at h
         · rename_i hu
           simp only [Option.some.injEq, Prod.mk.injEq] at h
           obtain ⟨rfl, rfl⟩ := h
           have heq : mergeSegsB B s.log s.stamper s.nextId (ids.filterMap (lookup s.uncommitted))
-              = mergeSegs s.log s.stamper s.nextId (ids.filterMap (lookup s.uncommitted)) := by
-            apply mergeSegsB_eq
-            intro sg _
-            apply advB_eq_of_ne
-            intro hc
-            exact Nat.lt_irrefl _ (hb.lt _ _ hc)
+              = mergeSegs s.log s.stamper s.nextId (ids.filterMap (lookup s.uncommitted)) :=
+            mergeSegsB_eq B s.log s.stamper s.nextId _ (fun sg _ => advB_at_stamper s B hb sg)
           refine ⟨?_, ?_⟩
           · simp only [step, if_neg hg, if_pos hu, heq]
-          · refine ⟨?_, ?_, ?_⟩
-            · intro i t hi
-              show t < s.stamper + 1
-              simp only at hi
-              split at hi
-              · cases hi
-              · have := hb.lt i t hi; omega
-            · intro m hmem M hM
-              have hmem' : m ∈ s.merges ++ [{ ids := ids, result := mergeSegsB B s.log s.stamper s.nextId (ids.filterMap (lookup s.uncommitted)) }] := hmem
-              show (if M.id = s.nextId then none else B.delOp M.id) = none
-              split
-              · rfl
-              · rename_i hne
-                rcases List.mem_append.mp hmem' with h1 | h1
-                · exact hb.res m h1 M hM
-                · simp only [List.mem_singleton] at h1
-                  subst h1
-                  simp only at hM
-                  rw [heq] at hM
-                  exact absurd (mergeSegs_id _ _ _ _ M hM) hne
-            · show s.metas.opstamp < s.stamper + 1 ∨ s.metas.opstamp = 0
-              rcases hb.mlt with h1 | h1
-              · exact Or.inl (by omega)
-              · exact Or.inr h1
+          · refine ⟨hle, hb.mle', ?_, Nat.le_succ_of_le hb.mle, Or.inl (Nat.lt_succ_of_le hb.mle)⟩
+            intro m hmem M hM
+            have hmem' : m ∈ s.merges ++ [{ ids := ids, result := mergeSegsB B s.log s.stamper s.nextId (ids.filterMap (lookup s.uncommitted)) }] := hmem
+            show (if M.id = s.nextId then none else B.delOp M.id) = none
+            split
+            · rfl
+            · rename_i hne
+              rcases List.mem_append.mp hmem' with h1 | h1
+              · exact hb.res m h1 M hM
+              · simp only [List.mem_singleton] at h1
+                subst h1
+                simp only at hM
+                rw [heq] at hM
+                exact absurd (mergeSegs_id _ _ _ _ M hM) hne
         · rename_i hu
           split at h
           · rename_i hc
@@ -337,27 +389,20 @@ theorem stepD_step (s : WState α) (B : Book) (e : Event α) (sb' : WState α ×
               exact advance_committedAt s.log s.metas.opstamp sg (hm.cis sg (filterMap_lookup_mem ids s.committed sg hsg))
             refine ⟨?_, ?_⟩
             · simp only [step, if_neg hg, if_neg hu, if_pos hc, heq]
-            · refine ⟨?_, ?_, ?_⟩
-              · intro i t hi
-                show t < s.stamper
-                simp only at hi
-                split at hi
-                · cases hi
-                · exact hb.lt i t hi
-              · intro m hmem M hM
-                have hmem' : m ∈ s.merges ++ [{ ids := ids, result := mergeSegsB B s.log s.metas.opstamp s.nextId (ids.filterMap (lookup s.committed)) }] := hmem
-                show (if M.id = s.nextId then none else B.delOp M.id) = none
-                split
-                · rfl
-                · rename_i hne
-                  rcases List.mem_append.mp hmem' with h1 | h1
-                  · exact hb.res m h1 M hM
-                  · simp only [List.mem_singleton] at h1
-                    subst h1
-                    simp only at hM
-                    rw [heq] at hM
-                    exact absurd (mergeSegs_id _ _ _ _ M hM) hne
-              · exact hb.mlt
+            · refine ⟨hle, hb.mle', ?_, hb.mle, hb.strict⟩
+              intro m hmem M hM
+              have hmem' : m ∈ s.merges ++ [{ ids := ids, result := mergeSegsB B s.log s.metas.opstamp s.nextId (ids.filterMap (lookup s.committed)) }] := hmem
+              show (if M.id = s.nextId then none else B.delOp M.id) = none
+              split
+              · rfl
+              · rename_i hne
+                rcases List.mem_append.mp hmem' with h1 | h1
+                · exact hb.res m h1 M hM
+                · simp only [List.mem_singleton] at h1
+                  subst h1
+                  simp only at hM
+                  rw [heq] at hM
+                  exact absurd (mergeSegs_id _ _ _ _ M hM) hne
           · cases h
     | mergeEnd k =>
       simp only [stepD] at h
@@ -374,19 +419,33 @@ theorem stepD_step (s : WState α) (B : Book) (e : Event α) (sb' : WState α ×
             rw [hb.res m hmem M hM]
             exact fun hc => by cases hc
         -- the book after the catch-up
-        have hlt : ∀ i t, (match m.result with
+        have hle : ∀ i t, (match m.result with
               | some M => catchUpBook B s.log s.metas.opstamp M
-              | none => B).delOp i = some t → t < s.stamper := by
+              | none => B).delOp i = some t → t ≤ s.metas.opstamp := by
           intro i t hi
           cases hM : m.result with
-          | none => rw [hM] at hi; exact hb.lt i t hi
+          | none => rw [hM] at hi; exact hb.le i t hi
           | some M =>
             rw [hM] at hi
-            rcases catchUpBook_delOp B s.log s.metas.opstamp M i t hi with ⟨h1, h2⟩ | h1
-            · rcases hb.mlt with h3 | h3
-              · omega
-              · omega
-            · exact hb.lt i t h1
+            rcases catchUpBook_delOp B s.log s.metas.opstamp M i t hi with ⟨h1, _⟩ | h1
+            · omega
+            · exact hb.le i t h1
+        have hmle' : ∀ i t, (match m.result with
+              | some M => catchUpBook B s.log s.metas.opstamp M
+              | none => B).metaDelOp i = some t → t ≤ s.metas.opstamp := by
+          intro i t hi
+          have : (match m.result with
+              | some M => catchUpBook B s.log s.metas.opstamp M
+              | none => B).metaDelOp = B.metaDelOp := by
+            cases m.result with
+            | none => rfl
+            | some M =>
+              simp only [catchUpBook]
+              split
+              · split <;> rfl
+              · rfl
+          rw [this] at hi
+          exact hb.mle' i t hi
         have hrs : ∀ m' ∈ s.merges.eraseIdx k, ∀ M', m'.result = some M' → (match m.result with
               | some M => catchUpBook B s.log s.metas.opstamp M
               | none => B).delOp M'.id = none := by
@@ -412,40 +471,39 @@ theorem stepD_step (s : WState α) (B : Book) (e : Event α) (sb' : WState α ×
         · rename_i hu
           simp only [Option.some.injEq, Prod.mk.injEq] at h
           obtain ⟨rfl, rfl⟩ := h
-          refine ⟨?_, ⟨hlt, hrs, hb.mlt⟩⟩
+          refine ⟨?_, ⟨hle, hmle', hrs, hb.mle, hb.strict⟩⟩
           simp only [step, hk', if_pos hu, hres]
         · rename_i hu
           split at h
           · rename_i hc
             simp only [Option.some.injEq, Prod.mk.injEq] at h
             obtain ⟨rfl, rfl⟩ := h
-            refine ⟨?_, ⟨hlt, hrs, hb.mlt⟩⟩
+            refine ⟨?_, ⟨hle, hle, hrs, hb.mle, hb.strict⟩⟩
             simp only [step, hk', if_neg hu, if_pos hc, hres]
           · rename_i hc
             simp only [Option.some.injEq, Prod.mk.injEq] at h
             obtain ⟨rfl, rfl⟩ := h
-            refine ⟨?_, ⟨hlt, hrs, hb.mlt⟩⟩
+            refine ⟨?_, ⟨hle, hmle', hrs, hb.mle, hb.strict⟩⟩
             simp only [step, hk', if_neg hu, if_neg hc]
 
 /-- **the machine with bookkeeping refines the core machine** along every run in which the
-stamper never goes back -/
+stamper never goes below `meta.opstamp` -/
 theorem runD_run (s : WState α) (B : Book) (t : SpecState α) (es : List (Event α)) (sb' : WState α × Book)
     (hw : WInv s t.pending t.committed) (hm : MInv s) (hb : BInv s B) (hok : okRun2 s es)
-    (hk : es.all bookOk = true) (h : runD (s, B) es = some sb') : run s es = some sb'.1 := by
+    (hk : bookRun s es) (h : runD (s, B) es = some sb') : run s es = some sb'.1 := by
   induction es generalizing s B t with
   | nil =>
     simp only [runD, Option.some.injEq] at h
     subst h
     rfl
   | cons e es ih =>
-    simp only [List.all_cons, Bool.and_eq_true] at hk
     simp only [runD] at h
     split at h
     · rename_i sb1 r hs
-      obtain ⟨hstep, hb1⟩ := stepD_step s B e sb1 r hm hb hk.1 hs
+      obtain ⟨hstep, hb1⟩ := stepD_step s B e sb1 r hm hb hok.1 hk.1 hs
       obtain ⟨hw1, hm1⟩ := inv_step2 s sb1.1 t e r hw hm hok.1 hstep
       simp only [run, hstep]
-      exact ih sb1.1 sb1.2 (specAfter t e) hw1 hm1 hb1 (hok.2 sb1.1 r hstep) hk.2 h
+      exact ih sb1.1 sb1.2 (specAfter t e) hw1 hm1 hb1 (hok.2 sb1.1 r hstep) (hk.2 sb1.1 r hstep) h
     · cases h
 
 end TantivyModel.Writer
